@@ -31,13 +31,24 @@ INVARIANTS = ["TypeOKV", "VerdictAgrees", "ReasonIsSound", "FaultEffects", "Base
 ALLOWED = {"package": ("ExperimentInvalidConfigurationError",),
            "graph": ("ExperimentInvalidConfigurationError", "FlowIRException")}
 
-K_BOOL = "validate:type:boolean-option-coerced-by-truthiness"
+ALL_TSITES = ["numberProcesses", "numberThreads", "ranksPerNode", "threadsPerCore", "gpus", "maxRestarts", "repeatRetries",
+              "gracePeriod", "replicate", "walltime", "cpuUnitsPerCore", "statusRequestInterval", "arguments", "executable", "queue",
+              "aggregate", "isMigratable", "resolvePath", "references", "shutdownOn", "backend", "stage"]
+ALL_TCLASSES = ["ffrac", "fwhole", "int", "bool", "numstr", "boolstr", "word", "list", "dict", "none"]
+# the sites / classes used where the type fault is only one of many (the full matrix has its own slice)
+FEW_TSITES = ["replicate", "aggregate", "references", "arguments", "numberProcesses", "stage", "shutdownOn"]
+FEW_TCLASSES = ["word", "int", "ffrac"]
+DECL = {}
+for _d, _sites in (("int", ALL_TSITES[:9]), ("float", ALL_TSITES[9:12]), ("str", ALL_TSITES[12:15]), ("bool", ALL_TSITES[15:18]),
+                   ("list", ALL_TSITES[18:20]), ("enum", ["backend"]), ("stage", ["stage"])):
+    for _s in _sites:
+        DECL[_s] = _d
 
 
 def V(names=("p", "q", "r"), stages=(0, 1), reps=("none", "n2", "vs"), aggs=(True, False), spell=("rel", "abs"), paths=("",),
-      methods=("ref",), styles=("same",), comps=3, refs=2, faults=ALL_FAULTS, package=8):
+      methods=("ref",), styles=("same",), comps=3, refs=2, faults=ALL_FAULTS, package=8, tsites=FEW_TSITES, tclasses=FEW_TCLASSES):
     return dict(names=names, stages=stages, reps=reps, aggs=aggs, spell=spell, paths=paths, methods=methods, styles=styles,
-                comps=comps, refs=refs, faults=faults, package=package)
+                comps=comps, refs=refs, faults=faults, package=package, tsites=tsites, tclasses=tclasses)
 
 
 SLICES = {
@@ -48,12 +59,17 @@ SLICES = {
         "three": V(stages=(0,), reps=("none", "n2"), spell=("rel",), faults=["none", "drop", "rename", "cycle", "dup", "var"], package=8),
         # structural faults across two stages
         "stages": V(reps=("none",), aggs=(False,), spell=("abs",), faults=["drop", "rename", "restage", "cycle", "dup"], package=4),
+        # the whole type matrix: every typed option site x every class of value, on small bases
+        "types": V(names=("p", "q"), stages=(0,), reps=("none", "n2"), spell=("rel",), comps=2, refs=1, faults=["type"],
+                   tsites=ALL_TSITES, tclasses=ALL_TCLASSES, package=4),
     },
     "thorough": {
         "two": V(names=("p", "q"), reps=("none", "n1", "n2", "n3", "vg", "vs", "vc"), comps=2, package=4, paths=("", "out.txt")),
         "three": V(stages=(0,), reps=("none", "n2"), spell=("rel",), faults=["none", "drop", "rename", "cycle", "dup", "var"], package=16),
         "three2": V(reps=("none", "n2"), spell=("abs",), faults=["none", "drop", "rename", "restage", "cycle", "dup", "var"], package=32),
         "options": V(stages=(0,), reps=("none", "vg"), spell=("rel",), refs=1, faults=["key", "type"], package=16),
+        "types": V(names=("p", "q"), reps=("none", "n2", "vg"), spell=("rel", "abs"), comps=2, refs=1, faults=["type"],
+                   tsites=ALL_TSITES, tclasses=ALL_TCLASSES, package=4),
         "four": V(names=("p", "q", "r", "s"), stages=(0,), reps=("none", "n2"), aggs=(False,), spell=("rel",), comps=4,
                   faults=["drop", "cycle", "dup", "rename"], package=32),
     },
@@ -68,10 +84,10 @@ def write_cfg(path, sl, emit, invariants):
     body = ("CONSTANTS\n  Names = %s\n  Stages = %s\n  RepChoices = %s\n  AggChoices = %s\n  Spellings = %s\n  Paths = %s\n"
             "  Methods = %s\n  ArgStyles = %s\n  DocOrders = {\"fwd\"}\n  MaxComps = %d\n  MaxRefs = %d\n  FixedNames = TRUE\n"
             "  Emit = FALSE\n  PrivChoices = {0}\n  AggVarChoices = {FALSE}\n  StageVals0 = {0}\n  StageVals1 = {2}\n  MaxSame = 1\n"
-            "  FaultKinds = %s\n  EmitV = %s\nINIT InitV\nNEXT NextV\n%sCHECK_DEADLOCK FALSE\n" % (
+            "  FaultKinds = %s\n  EmitV = %s\n  TypeSitesC = %s\n  TypeClassesC = %s\nINIT InitV\nNEXT NextV\n%sCHECK_DEADLOCK FALSE\n" % (
                 _set(sl["names"]), _set(sl["stages"]), _set(sl["reps"]), _set(sl["aggs"]), _set(sl["spell"]), _set(sl["paths"]),
                 _set(sl["methods"]), _set(sl["styles"]), sl["comps"], sl["refs"], _set(sl["faults"]),
-                "TRUE" if emit else "FALSE", "".join("INVARIANT %s\n" % i for i in invariants)))
+                "TRUE" if emit else "FALSE", _set(sl["tsites"]), _set(sl["tclasses"]), "".join("INVARIANT %s\n" % i for i in invariants)))
     with open(path, "w") as f:
         f.write(body)
     return path
@@ -79,9 +95,11 @@ def write_cfg(path, sl, emit, invariants):
 
 def classify(case):
     f = case["fault"]
-    if f["kind"] == "type" and f["site"] in ("aggregate", "aggregateInt"):
-        return K_BOOL
-    if f["kind"] in ("key", "type", "var"):
+    if f["kind"] == "type":
+        # class of the input: which kind of value for which declared type (the site only for the non-uniform ones)
+        d = DECL.get(f["site"], f["site"])
+        return "validate:type:%s-for-%s%s" % (f["cls"], d, (":" + f["site"]) if f["site"] in ("replicate", "stage", "backend") else "")
+    if f["kind"] in ("key", "var"):
         return "validate:%s:%s" % (f["kind"], f["site"])
     return "validate:%s" % f["kind"]
 
@@ -89,15 +107,16 @@ def classify(case):
 def judge(case, res, path):
     """-> list of problems for one load of one mutant"""
     valid = case["valid"]
+    either = valid and case.get("unspec")        # the property does not decide the outcome: both are fine, the manner still counts
     if res.get("hang"):
         return ["%s: the load did not return within the alarm (hang)" % path]
     if "error" in res:
         bad = []
         if not any(a in res["mro"] for a in ALLOWED[path]):
             bad.append("%s: refused with %s (%s), not with an invalid-configuration error" % (path, res["error"], res["msg"][:200]))
-        if valid:
+        if valid and not either:
             bad.append("%s: the workflow is valid (%s) but was refused: %s: %s" % (
-                path, "fault '%s' keeps it valid" % case["fault"]["kind"], res["error"], res["msg"].replace("\n", " | ")[:300]))
+                path, "fault '%s' keeps it valid" % (case["fault"]["kind"] + ("/" + case["fault"]["cls"] if case["fault"].get("cls") else "")), res["error"], res["msg"].replace("\n", " | ")[:300]))
         return bad
     bad = []
     if not valid:
